@@ -133,8 +133,10 @@ func (g *Gossip) ack(ctx context.Context, ack Message) (ack2 Message) {
 	ack2 = Message{Nodes: make(node.Group)}
 	for _, dig := range ack.Digests {
 		// If we have the node, and our version is newer, return it to the
-		// peer.
-		if n, ok := snap.Nodes[dig.Key]; ok && n.Heartbeat.OlderThan(dig.Heartbeat) {
+		// peer. The peer only lists members it lacks or is behind on; for a member
+		// it lacks it sends a zero heartbeat, which a record that is itself still at
+		// its zero heartbeat can only match, never beat: send on equality too.
+		if n, ok := snap.Nodes[dig.Key]; ok && !n.Heartbeat.YoungerThan(dig.Heartbeat) {
 			ack2.Nodes[dig.Key] = n
 		}
 	}
